@@ -11,3 +11,5 @@ import RenetVerif.Lemmas.SrcEquiv.TokenTable
 import RenetVerif.Lemmas.SrcEquiv.NcSerialize
 import RenetVerif.Lemmas.SrcEquiv.NcToken
 import RenetVerif.Lemmas.SrcEquiv.NcSequence
+import RenetVerif.Lemmas.SrcEquiv.SendUnrel
+import RenetVerif.Lemmas.SrcEquiv.RecvUnrel
